@@ -186,7 +186,11 @@ def units(tier):
                 if any(len(m) > 0 for m in targets):
                     # the sender goes to sleep although a report for it is already queued: it may never be woken again
                     lost_wakeups.append(len(delivered))
-                if len(delivered) >= (REPORT_BOUND["n"] if burst_mode != "first" else 3) or not targets:
+                # reports per send: REPORT_BOUND without bursts; 3 with one burst at the start (quick); with a burst allowed at
+                # every hand-over (thorough) two fewer than the plain bound, plus the second report of a last burst - the path count grows ~5x per report, and
+                # the obligations are re-checked by cvc5 one by one in that tier
+                cap = 3 if burst_mode == "first" else (REPORT_BOUND["n"] - 2 if burst_mode == "any" else REPORT_BOUND["n"])
+                if len(delivered) >= cap or not targets:
                     return
                 # the reader may hand over one report, or two at once (both were already waiting in the device file)
                 burst = 1
@@ -197,7 +201,7 @@ def units(tier):
                     if ctx.fresh_bool("burst") if ctx.native else ctx.fork(ctx.fresh_bool("burst").e):
                         burst = 2
                 for _ in range(burst):
-                    if len(delivered) >= REPORT_BOUND["n"]:
+                    if len(delivered) >= cap + (1 if burst_mode == "any" else 0):
                         break
                     k = ctx.choose_int(ctx.fresh_int("report_kind", 0, 4), "report kind")
                     echoes = len([d for d in delivered if d[0] == "sent"])
